@@ -134,7 +134,7 @@ PROPS = {
             [rnd("both", "core", 30000, 80, boost="pushinc:5,pushdec:5"), builds("pq", 6), builds("dpq", 6)]),
     ),
     "C12": dict(
-        theorems=None, drop=["t", "hq"],
+        theorems=None, impl_search=pqv_bign.borrow_search, drop=["t", "hq"],
         gens=tiers(
             [rnd("both", "core", 3000, 60, boost="peekmut:4,getmut:4,get:3"),
              rnd("both", "iter", 1500, 50, exclude=NOT_ITERMUT),
